@@ -44,7 +44,7 @@ MANIFEST = dict(
          "AES_ref(k, nonce_be64||index_be64), plus decrypt-restores-input per segment; a grid of (start mod 16, len1, len2) around the "
          "carries, sampled (carrygrid) and enumerated completely per case (carrysweep: 50 start deltas x 49 lengths); streams of 2^16..2^20 blocks in quick and 2^24 blocks (256 MiB) in thorough. Exploration is the right level: keys, "
          "nonces and histories are unbounded, the oracle is exact, and the classes named by the property (head/whole/tail x carry, "
-         "re-initialisation with and without a new key) are populated deliberately and reported in the class histogram.",
+         "re-initialisation with and without a new key) are populated deliberately and reported in the class histogram. Block encryption is also tried with partially overlapping in/out blocks (documented as allowed), stream calls with buffers that touch without overlapping, and, in the thorough tier, every far64 case walks the stream to 64 GiB (block index 2^32) and crosses it inside one call.",
     note="Trusted: clang 14 + ASan/UBSan, rapidcheck, the FIPS-197 reference in props/C02/core.cpp (validated at start-up on FIPS-197 "
          "vectors and against OpenSSL EVP). The AES-NI paths run on this host; a broken AES-NI block function is disabled by the "
          "library's own start-up self-test (falls back to OpenSSL), so block-level AES-NI faults that the two FIPS vectors expose are "
